@@ -128,6 +128,8 @@ func c12URLs(up int, mode string, base string) (u [c12NU]string, ok bool) {
 	case 5:
 		l := strings.Repeat("a", 600)
 		u = [c12NU]string{base + "/" + l, base + "/" + l + "/", base + "/" + l[:599] + "b", base + "/l"}
+	case 6: // probe only (never generated): a url the production client cannot parse, beside the same url without the blank
+		u = [c12NU]string{" " + base + "/sp", base + "/sp", base + "/sp/x", base + "/sp/y"}
 	default:
 		return u, false
 	}
@@ -404,7 +406,7 @@ func c12ParseHead(h string) (mt int, mode string, up int, err error) {
 			return
 		}
 	}
-	if mt < 1 || up < 0 || up > 5 || (mode != "s" && mode != "p") {
+	if mt < 1 || up < 0 || up > 6 || (mode != "s" && mode != "p") {
 		err = fmt.Errorf("bad head %q", h)
 	}
 	return
